@@ -785,10 +785,13 @@ def fam_caches(rng, tier, i, reopen=False, faults=False):
     later = rng.random() < 0.35
     s = [new_line("c", p, b"", () if later else Bs)]
     cut = rng.randrange(0, n + 1)
+    by_file_name = reopen and i % 5 == 2 and n >= 7      # directed: opened by file name, payload size from the file, whole buckets appended after it
+    if by_file_name:
+        cut = rng.randrange(0, n - 2 * min(Bs) - 1) if n - 2 * min(Bs) - 1 > 0 else 0
     s += push_lines(lines[:cut])
     if later or reopen:
         # by file name (with the extension) or by series name; the payload size given or read from the file: two builder paths
-        s += ["close", open_line("c", "any" if i % 3 else p, "any", Bs, ext=(i // 2) % 2)]
+        s += ["close", open_line("c", "any" if (i % 3 or by_file_name) else p, "any", Bs, ext=1 if by_file_name else (i // 2) % 2)]
     if not reopen and rng.random() < 0.4:
         # resampling reads served from a cache (few samples over a bounded range, so that a level is read and the read stops
         # before the end of that level's file) between the appends: the bucket that completes next is still appended
@@ -802,6 +805,9 @@ def fam_caches(rng, tier, i, reopen=False, faults=False):
         s += push_lines(lines[cut:])
     if reopen:
         k = rng.randrange(0, 3)
+        if by_file_name:
+            k = 0
+            s += ["read_all u u", "len"]         # in the session that was opened by file name, before anything else happens to the handle
         for k3 in range(k):
             s += ["close", open_line("c", "any", "any", Bs, ext=(i + k3) % 2)]
     if faults:
